@@ -346,6 +346,10 @@ def lab_run(task, spec, args):
         if p.get('drop_default') and 'default' in p and v == _default_of(p):
             continue
         persisted[p['name']] = pcanon(v)
+        if p.get('dtype') == 'Path' and v is not None:
+            # run receives a Path (substituted text); what persistence depends on is the text as written in the config
+            raw = pcanon(task.params._parameters[p['name']]._value)
+            persisted[p['name']] = ['p', raw[1]] if raw and raw[0] == 's' else raw
     rec['received'] = received
     _log_record(dict(rec, phase='start'))
     if fault_kind == 'raise_before':
@@ -551,7 +555,7 @@ def expected_vdigest_for(task_cls, param_values: dict, explicit_values: list):
             continue
         if p.get('drop_default') and 'default' in p and v == p['default']:
             continue
-        persisted[p['name']] = pcanon(v)
+        persisted[p['name']] = pcanon(v) if not (p.get('dtype') == 'Path' and v is not None) else ['p', str(v)]
     explicit = []
     it = iter(explicit_values)
     reads = ts.get('reads')
